@@ -8,9 +8,9 @@
     sanitize_total stripentities_total sanitize_css_total
     only_safe_elems_attrs no_comments
     wellnested_in_out end_tags_safe dropped_subtree_absent
-    uri_attrs_checked uri_attrs_safe_partial scheme_punct_witness
+    uri_attrs_checked uri_attrs_scheme_mod_punct uri_attrs_safe_partial scheme_punct_witness
     css_comments_dotall css_expression_classes_cover css_decode_fixed css_no_expression
-    css_urls_safe_partial css_scheme_punct_witness
+    css_urls_scheme_mod_punct css_urls_safe_partial css_scheme_punct_witness
 -/
 import Genshi.Lemmas.SanNest
 import Genshi.Lemmas.SanTree
@@ -217,6 +217,15 @@ theorem uri_attrs_checked {cfg : Cfg} {s o : Stream} (h : sanitize cfg s = .ok o
   without `+`, `-`, `.` — the only characters of a syntactically valid scheme that the code
   deletes and a browser keeps.
 -/
+/-- What holds for EVERY emitted URI attribute, without exception: the scheme the browser reads,
+    with its `+ - .` removed, is a safe scheme (so the only deviation from the full statement is
+    the punctuation of finding C06-scheme-punct). -/
+theorem uri_attrs_scheme_mod_punct {cfg : Cfg} {s o : Stream} (h : sanitize cfg s = .ok o)
+    {tag : QName} {attrs : AttrList} (hm : Event.start tag attrs ∈ o)
+    {a : QName × Str} (ha : a ∈ attrs) (hu : a.1.text ∈ cfg.uriAttrs)
+    {sch : Str} (hb : browserScheme a.2 = some sch) : dropPunct sch ∈ cfg.safeSchemes :=
+  isSafeUri_sound_mod_punct (uri_attrs_checked h hm ha hu) hb
+
 /-- search: uri -/
 theorem uri_attrs_safe_partial {cfg : Cfg} {s o : Stream} (h : sanitize cfg s = .ok o)
     {tag : QName} {attrs : AttrList} (hm : Event.start tag attrs ∈ o)
@@ -315,6 +324,17 @@ theorem css_no_expression {cfg : Cfg} (hcfg : CssNamesPlain cfg) {s o : Stream} 
   FALSE of the code for the same reason as `uri_attrs_safe_partial` (`css_scheme_punct_witness`,
   finding C06-scheme-punct); proved for every scheme without `+`, `-`, `.`.
 -/
+/-- What holds for EVERY `url(` argument of an emitted style value, without exception: the scheme
+    the browser reads in it, with its `+ - .` removed, is a safe scheme. -/
+theorem css_urls_scheme_mod_punct {cfg : Cfg} (hcfg : CssNamesPlain cfg) {s o : Stream} (h : sanitize cfg s = .ok o)
+    {tag : QName} {attrs : AttrList} (hm : Event.start tag attrs ∈ o)
+    {a : QName × Str} (ha : a ∈ attrs) (hs : a.1.text = styleWord) (hu : styleWord ∉ cfg.uriAttrs)
+    {arg : Str} (harg : arg ∈ urlArgs (cssDecode a.2))
+    {sch : Str} (hb : browserScheme (trimArg arg) = some sch) : dropPunct sch ∈ cfg.safeSchemes := by
+  obtain ⟨x, decls, hd, hj⟩ := style_attr_emitted h hm ha hs hu
+  rw [hj] at harg
+  exact sanitizeCss_urls_safe css_comments_dotall hcfg hd arg harg sch hb
+
 /-- search: css -/
 theorem css_urls_safe_partial {cfg : Cfg} (hcfg : CssNamesPlain cfg) {s o : Stream} (h : sanitize cfg s = .ok o)
     {tag : QName} {attrs : AttrList} (hm : Event.start tag attrs ∈ o)
@@ -322,9 +342,8 @@ theorem css_urls_safe_partial {cfg : Cfg} (hcfg : CssNamesPlain cfg) {s o : Stre
     {arg : Str} (harg : arg ∈ urlArgs (cssDecode a.2))
     {sch : Str} (hb : browserScheme (trimArg arg) = some sch) (hp : ∀ c ∈ sch, c ≠ '+' ∧ c ≠ '-' ∧ c ≠ '.') :
     sch ∈ cfg.safeSchemes := by
-  obtain ⟨x, decls, hd, hj⟩ := style_attr_emitted h hm ha hs hu
-  rw [hj] at harg
-  exact sanitizeCss_urls_safe css_comments_dotall hcfg hd arg harg sch hb hp
+  have := css_urls_scheme_mod_punct hcfg h hm ha hs hu harg hb
+  rwa [dropPunct_of_plain hp] at this
 
 /-- a configuration that allows `style` attributes -/
 def styleCfg : Cfg := { Cfg.default with safeAttrs := styleWord :: Cfg.default.safeAttrs }
